@@ -73,7 +73,7 @@ CHECKS = {
  "C14": dict(
     level="model_checking", ref="DESIGN.md §4 C14",
     technique="TLA+ spec Version (Compatible/Parse/ShouldEnable + code-shaped layer) checked exhaustively by TLC; exported cases replayed on version_parse/version_is_compatible/ovni_version_check_str/ovni_thread_require and on ovniemu (require versions, model enabling)",
-    text="TLC enumerates all (want, have) triples over 0..3, all strings up to length 6/7 over a 6-character alphabet and all (events, requires, -a) configurations of 8 models (half of them with decoy names in the require table that extend or abbreviate a model name) with 18 invariants and 5 refuted negative configurations; >100k exported cases are replayed on the real runtime functions and the emulator.",
+    text="TLC enumerates all (want, have) triples over 0..3, all strings up to length 6/7 over a 6-character alphabet and all (events, requires, -a) configurations of 8 models (half of them with decoy names in the require table that extend a model name) with 18 invariants and 5 refuted negative configurations; >100k exported cases are replayed on the real runtime functions and the emulator.",
     note="Strings whose only irregularity is undefined by the property (empty components, 4th component, strtol spellings) are Unspecified."),
  "C15": dict(
     level="model_checking", ref="DESIGN.md §4 C15",
